@@ -5,6 +5,7 @@ import (
 	"runtime"
 	"strings"
 	"sync"
+	"sync/atomic"
 	"testing"
 	"testing/synctest"
 
@@ -14,6 +15,9 @@ import (
 )
 
 var stopOnce sync.Once
+
+// inBubble: the code runs inside InBubble's bubble (Start can then wait for quiescence)
+var inBubble atomic.Bool
 
 // InBubble runs f inside a synctest bubble with the VictoriaMetrics unmarshal
 // workers restarted inside it (pkg/scrape's init() starts them outside any
@@ -32,6 +36,8 @@ func InBubble(t *testing.T, f func()) (problem string) {
 		}
 	}()
 	synctest.Test(t, func(t *testing.T) {
+		inBubble.Store(true)
+		defer inBubble.Store(false)
 		sched.ResetClock()
 		common.StartUnmarshalWorkers()
 		defer common.StopUnmarshalWorkers()
